@@ -37,6 +37,9 @@ def apply_regions(obls: list[Obl], findings: list[dict]) -> None:
             if not _match(o.params, sel.get("params_match", {})):
                 continue
             for k, v in f.get("region", {}).items():
+                if k == "skip":
+                    o.desc["skipped_by_finding"] = f["id"]
+                    continue
                 if isinstance(v, list):
                     cur = list(o.params.get(k, []))
                     for x in v:
@@ -50,10 +53,14 @@ def apply_regions(obls: list[Obl], findings: list[dict]) -> None:
 
 def run_e1(prop_id: str, tier: str, seed: int, obls: list[Obl], *, functions_encoded: list[str], stubs: list[str],
            assumptions: list[str], rule: str, bounds: dict, jobs: int = 16, extra_coverage: dict | None = None,
-           pre_violations: list[dict] | None = None) -> int:
+           pre_violations: list[dict] | None = None, spurious_inconclusive: bool = False, max_spurious_rounds: int = MAX_SPURIOUS_ROUNDS) -> int:
     t0 = time.time()
     findings = kfmod.load(prop_id)
     apply_regions(obls, findings)
+    skipped = [o for o in obls if o.desc.get("skipped_by_finding")]
+    obls = [o for o in obls if not o.desc.get("skipped_by_finding")]
+    for o in skipped:
+        print(f"[{prop_id}] obligation {o.key} lies entirely inside known-finding region {o.desc['skipped_by_finding']}: not explored", flush=True)
 
     def log(kind, o, r):
         print(f"[{prop_id}] {kind:4s} {o.key:60s} {r.get('verdict'):12s} paths={r.get('paths')} {r.get('seconds')}s", flush=True)
@@ -65,7 +72,7 @@ def run_e1(prop_id: str, tier: str, seed: int, obls: list[Obl], *, functions_enc
     harness_errors: list[str] = []
 
     # --- replay loop for refuted obligations
-    for rnd in range(MAX_SPURIOUS_ROUNDS + 1):
+    for rnd in range(max_spurious_rounds + 1):
         rerun: list[Obl] = []
         for key, r in list(results.items()):
             if r.get("verdict") != "refuted" or r.get("settled"):
@@ -88,10 +95,15 @@ def run_e1(prop_id: str, tier: str, seed: int, obls: list[Obl], *, functions_enc
                 r["settled"] = True
             else:
                 spurious.append({"obligation": key, "args": args, "replay": rp})
-                if rnd < MAX_SPURIOUS_ROUNDS and _can_exclude(args):
+                if rnd < max_spurious_rounds and _can_exclude(args):
                     o.params.setdefault("exclude_exact", []).append(_exclude_value(args))
                     o.twin = None
                     rerun.append(o)
+                elif spurious_inconclusive:
+                    # the harness's unit-level assertion is knowingly stricter than the property (e.g. C01): deviations
+                    # that are not observable through the public API are recorded, the obligation stays inconclusive
+                    r["verdict"] = "inconclusive"
+                    r["settled"] = True
                 else:
                     harness_errors.append(f"{key}: spurious counterexample could not be excluded: {args}")
                     r["settled"] = True
@@ -186,6 +198,7 @@ def run_e1(prop_id: str, tier: str, seed: int, obls: list[Obl], *, functions_enc
         "stubs": stubs,
         "harness_errors": harness_errors,
         "worker_errors": worker_errors,
+        "skipped_inside_known_finding_region": [{"obligation": o.key, "finding": o.desc["skipped_by_finding"]} for o in skipped],
         "repo_head": _repo_head(),
     }
     if extra_coverage:
